@@ -167,7 +167,7 @@ def check_case(case, acc):
                 problems.append(("prop-successes-trials", f"{f!r}: response is not [successes, trials] (kind {R.kind}, shape {M.shape})"))
         if M.shape[0] != len(df):
             problems.append(("response-exists", f"{f!r}: {M.shape[0]} response rows for {len(df)} observations"))
-    acc.bulk(len(RESP) - 1, "response-forms")
+    acc.subcases(case, len(RESP) - 1, True, "response-forms")
     if problems:
         acc.case(case, "MISMATCH", sample=False)
         seen = set()
